@@ -8,7 +8,7 @@ CHECKS = {
    text="Every leaf of a finite product (size class x colour-content class x alpha class x Go image type x Quality thresholds x Method 0..6 x Exact x metadata, plus every tiny image over a 5-pixel alphabet, plus every number of distinct colours 1..260 on a 20x20 noise layout) is encoded and decoded by the real code; decoded pixels must equal the source read through color.NRGBAModel, by this package's decoder and by the vendored x/image decoder. Exhaustive within the stated alphabet; the right level because the defect regions are defined by joint class conditions, which the product visits completely.",
    note="Trusts: vendored golang.org/x/image vp8l decoder as independent reference; worker count pinned to 1 and pools never reuse (studied by C12/C11); filler pixel values inside a class are fixed functions of position and seed.", ref="3/C01"),
  "C02": dict(cat="exploration", tech="deviation-bounded exhaustive enumeration of EncoderOptions (<=2, thorough <=3 fields off default) x image alphabet on the real encoder; strict container validator + independent decoder, libwebp arbitrating",
-   text="All option sets with at most 2 (thorough 3) fields away from DefaultOptions(), each field over its menu of valid values, on a 14-picture alphabet, plus an alphabet-size sweep (every number of distinct colours 1..260 lossless, every number of alpha levels 1..256 lossy, x Quality x Method menus); every output is checked by a RIFF/VP8/VP8L validator written from the specification and decoded by this package and by the vendored x/image decoder (planes/pixels equal; libwebp arbitrates disagreements and must itself accept every file Encode reports success for). Complete up to the stated interaction bound, which covers every single and pairwise option interaction - the region where container and bitstream invariants were found to break.",
+   text="All option sets with at most 2 (thorough 3) fields away from DefaultOptions(), each field over its menu of valid values, on a 16-picture alphabet, plus an alphabet-size sweep (every number of distinct colours 1..260 lossless, every number of alpha levels 1..256 lossy, x Quality x Method menus); every output is checked by a RIFF/VP8/VP8L validator written from the specification and decoded by this package and by the vendored x/image decoder (planes/pixels equal; libwebp arbitrates disagreements and must itself accept every file Encode reports success for). Complete up to the stated interaction bound, which covers every single and pairwise option interaction - the region where container and bitstream invariants were found to break.",
    note="Trusts riffwalk (own validator), vendored x/image vp8/vp8l, optional libwebp arbiter; 3-way (4-way) interactions and pictures outside the alphabet are not covered.", ref="3/C02"),
  "C05": dict(cat="fault_enumeration", tech="exhaustive single-fault (header region: double-fault) enumeration over seed files, executed in isolated worker processes with allocation and CPU accounting",
    text="Every prefix, every byte position x 9-value boundary alphabet, every recognised size/dimension field x 15-value boundary alphabet, every chunk delete/duplicate/swap/re-tag, all deviation pairs in the header region, and RIFF skeleton strings, for ~55 seed files; each input is pushed through all nine decoding entry points in a supervised child (panic, process death, CPU blow-up, deadlock, TotalAlloc bound, malformed result).",
